@@ -395,7 +395,7 @@ def classify(item, out, nested_spans):
 # what the hand-written model has for the items translated by extract_rest.py (shown with the item)
 MODEL_NOTES = {
     "rest:Jac.batchNormalization": "model: `Jac.batchNormalize` (equality)",
-    "rest:Jac.random": "the model has NO counterpart (no RNG): characterised by `randomSpec` (PP/Proofs/GenRest.lean) in "
+    "rest:Jac.random": "the model's `Jac.randomSpec` (PP/Model/Curve.lean; RNG as a state-passing function; also run against the real code with a replaying RNG): `Jac_random_eq` (PP/Proofs/GenRest.lean) in "
                        "terms of the model's `Aff.getPointFromX` / `Jac.isZero`; RNG primitives are parameters",
     "rest:G1Affine.scaleByCofactor": "the model has NO such function: = `Aff.mulBits` on the bits of `Gen.G1_COFACTOR` "
                                      "(the driver's expression)",
